@@ -17,9 +17,6 @@ Proof. exists oversize_cfg, oversize_ops. vm_compute. reflexivity. Qed.
 Definition no_oversize (cfg : scfg) (ops : list op) : Prop :=
   forall mb d t sz, In (Add mb d t sz) ops -> (c_max cfg = 0 \/ sz <= c_max cfg)%N.
 
-(* Statements kept visible, not proved (NOT_PROVED in lib/props/c16.py). *)
-Definition stored_before_deleted_partial_stmt : Prop :=
-  forall cfg ops, no_oversize cfg ops -> sbd_ok (trace_of (run_spec cfg spec_init ops)) = true.
 (** Non-vacuity of the guard and a sample of the statements (computation on one history; not a proof). *)
 Example no_oversize_example : no_oversize {| c_cap := 1; c_max := 2048 |} oversize_ops.
 Proof.
